@@ -155,11 +155,14 @@ func (g *gen) line() string {
 		n = rapid.IntRange(34, 63).Draw(t, "longbiaslen")
 	}
 	if g.mutate("line") {
-		switch rapid.IntRange(0, 2).Draw(t, "linemut") {
+		switch rapid.IntRange(0, 3).Draw(t, "linemut") {
 		case 0:
 			n = 1
 		case 1:
 			n = 0
+		case 3: // the whole array looks like one position: every "position" is the same scalar
+			v := rapid.SampledFrom([]string{"null", "null", "5", "1.5", "true", `"x"`}).Draw(t, "scalarpos")
+			return "[" + strings.Repeat(v+","+g.ws(), rapid.IntRange(1, 4).Draw(t, "scalarposn")) + v + "]"
 		default:
 			return g.wrongKind()
 		}
@@ -363,6 +366,11 @@ func (g *gen) object(depth int, feature bool) string {
 			}
 		}
 		reqVal = "[" + g.ws() + strings.Join(parts, ","+g.ws()) + "]"
+		if typ == "MultiPoint" && g.mutate("mpscalar") {
+			// the whole array looks like one position: every "position" is the same scalar
+			v := rapid.SampledFrom([]string{"null", "null", "5", "1.5", "true", `"x"`}).Draw(t, "mpscalarv")
+			reqVal = "[" + strings.Repeat(v+","+g.ws(), rapid.IntRange(1, 4).Draw(t, "mpscalarn")) + v + "]"
+		}
 	case "GeometryCollection", "FeatureCollection":
 		reqKey = "geometries"
 		if typ == "FeatureCollection" {
